@@ -440,9 +440,53 @@ func c06Retention(e *Env) {
 		}
 	}
 	n := 0
-	for _, ci := range ir.CallsIn(fn, func(c *ssa.CallCommon) bool { return ir.IsCallTo(c, "os.Remove", "os.RemoveAll") }) {
+	// the removal itself may sit in a helper of the store: its conditions continue at the
+	// call RemoveOld makes, its parameters stand for the arguments of that call
+	type remSite struct {
+		ci   ssa.CallInstruction
+		lits []ir.NLit
+		bind map[ssa.Value]ssa.Value
+	}
+	isRemove := func(c *ssa.CallCommon) bool { return ir.IsCallTo(c, "os.Remove", "os.RemoveAll") }
+	var rems []remSite
+	for _, g := range ir.WithClosures(fn) {
+		for _, ci := range ir.CallsIn(g, isRemove) {
+			rems = append(rems, remSite{ci, e.DCS(ci), nil})
+		}
+		for _, cs := range ir.CallsIn(g, func(c *ssa.CallCommon) bool {
+			h := c.StaticCallee()
+			return h != nil && e.P.Funcs[h] && h.Blocks != nil && rootFn(h).Package() == fn.Package() && h != fn
+		}) {
+			h := cs.Common().StaticCallee()
+			bind := map[ssa.Value]ssa.Value{}
+			for i, p := range h.Params {
+				if i < len(cs.Common().Args) {
+					bind[p] = cs.Common().Args[i]
+				}
+			}
+			for _, hg := range ir.WithClosures(h) {
+				for _, ci := range ir.CallsIn(hg, isRemove) {
+					lits := append([]ir.NLit{}, e.DCS(cs)...)
+					if ir.UniqueSite(h) == nil {
+						lits = append(lits, e.DCS(ci)...)
+					} else {
+						lits = e.DCS(ci) // the virtual inlining view already continues at the call
+					}
+					rems = append(rems, remSite{ci, lits, bind})
+				}
+			}
+		}
+	}
+	isDays := func(v ssa.Value, bind map[ssa.Value]ssa.Value) bool {
+		v = ir.Deep(v)
+		if b, ok := bind[v]; ok {
+			v = ir.Deep(b)
+		}
+		return v == days
+	}
+	for _, rs := range rems {
+		ci, lits, bind := rs.ci, rs.lits, rs.bind
 		n++
-		lits := e.DCS(ci)
 		okBefore, okSign := false, false
 		for _, l := range lits {
 			if l.Kind == "val" && l.Pol {
@@ -459,7 +503,7 @@ func c06Retention(e *Env) {
 					if ad, ok := ir.Resolve(bound).(*ssa.Call); ok && ir.IsCallTo(&ad.Call, "(time.Time).AddDate") {
 						y, _ := ir.ConstInt(ad.Call.Args[1])
 						m, _ := ir.ConstInt(ad.Call.Args[2])
-						if u, ok := ir.Resolve(ad.Call.Args[3]).(*ssa.UnOp); ok && u.Op == token.SUB && ir.Resolve(u.X) == days && y == 0 && m == 0 {
+						if u, ok := ir.Resolve(ad.Call.Args[3]).(*ssa.UnOp); ok && u.Op == token.SUB && isDays(u.X, bind) && y == 0 && m == 0 {
 							if nc, ok := ir.Resolve(ad.Call.Args[0]).(*ssa.Call); ok && ir.IsCallTo(&nc.Call, "time.Now") {
 								okSign = true
 							}
@@ -471,7 +515,7 @@ func c06Retention(e *Env) {
 		okNeg := false
 		for _, l := range lits {
 			// 0 <= days  (from `if days < 0 { return }`)
-			if l.Kind == "cmp" && l.Op == token.LEQ && ir.Resolve(l.Y) == days {
+			if l.Kind == "cmp" && l.Op == token.LEQ && isDays(l.Y, bind) {
 				if k, ok := ir.ConstInt(l.X); ok && k == 0 {
 					okNeg = true
 				}
